@@ -176,6 +176,35 @@ def twin_games(games, rng, count):
     return out
 
 
+def two_final_games(games, rng, count):
+    """for `count` of the given (game, meta): add a second, absorbing final state with the LARGEST number, redirect one
+    transition of a probabilistic state to it, and list the final states in DESCENDING order (sometimes with a
+    repetition): a legal description whose final_states a careless in-place sort would reorder."""
+    out = []
+    pool = list(games)
+    rng.shuffle(pool)
+    for g, m in pool[:count]:
+        n = len(g["players"])
+        fs = list(g["final_states"])
+        tl = [list(r) for r in g["transition_list"]]
+        cand = [i for i in range(n) if g["players"][i] == "Probabilistic" and i not in fs and len(tl[i]) >= 2]
+        if cand:
+            i = rng.choice(cand)
+            k = rng.randrange(len(tl[i]))
+            tl[i][k] = (tl[i][k][0], n)
+        tl.append([(1, n)])
+        finals = [n] + sorted(set(fs), reverse=True)
+        if rng.random() < 0.3:
+            finals.append(n)
+        h = dict(players=list(g["players"]) + ["Probabilistic"], rewards=list(g["rewards"]) + [0], transition_list=tl,
+                 final_states=finals)
+        mm = dict(m)
+        if "fr" in mm:
+            mm["fr"] = list(mm["fr"]) + [[Fr(1)]]
+        out.append((h, mm))
+    return out
+
+
 TERMINATING = ("stopping", "exact", "ties", "pattern", "corpus")   # styles whose reward loop must terminate
 
 def pattern_games3(kmax, tiny=1e-7):
